@@ -669,6 +669,29 @@ func checkC13Scans(c *Ctx) {
 							}
 						}
 					}
+					// … and it becomes the result only where a comment matched: along the phi chain of the
+					// returned bug, a resolved candidate enters from the collecting block and from nowhere else
+					seenPhi := map[*ssa.Phi]bool{}
+					var walk func(v ssa.Value)
+					walk = func(v ssa.Value) {
+						phi, isPhi := v.(*ssa.Phi)
+						if !isPhi || seenPhi[phi] {
+							return
+						}
+						seenPhi[phi] = true
+						for i, e := range phi.Edges {
+							if ex, isEx := e.(*ssa.Extract); isEx {
+								if cl, isCall := ex.Tuple.(*ssa.Call); isCall {
+									if n, _ := callName(cl.Common()); strings.HasSuffix(n, ".Resolve") && phi.Block().Preds[i] != blk {
+										bugOK = false
+									}
+								}
+								continue
+							}
+							walk(e)
+						}
+					}
+					walk(ReturnResult(r, 0))
 					if idOK && bugOK {
 						okVals = true
 					}
@@ -715,6 +738,74 @@ func checkC13Scans(c *Ctx) {
 		c.Check(okCand, "R13.4", "ResolveComment:candidates-iff-primary-prefix", pos, "a bug is a candidate iff its id has the primary part of the prefix", "bug candidates are not collected exactly when excerpt.Id().HasPrefix(primary part) holds")
 		c.Check(okCond, "R13.4", "ResolveComment:collect-iff-prefix", pos, "a bug id is collected for every comment whose combined id has the prefix, under no other condition", "a comment match is not collected exactly when CombinedId().HasPrefix(prefix) holds "+why)
 		c.Check(okVals, "R13.4", "ResolveComment:returns-the-match", pos, "the bug and the combined id returned are those of the collected match", "the values returned on success are not the resolved candidate bug and the combined id of the matching comment")
+	}
+	// the multiple-match error hands on the ids it is given, all of them, untouched
+	if nm := w.Func("entity", "NewErrMultipleMatch"); nm != nil {
+		c.seeFn(funcName(nm))
+		okKeep := false
+		for _, st := range storedToField(nm, "Matching") {
+			if len(nm.Params) == 2 && st.Val == ssa.Value(nm.Params[1]) {
+				okKeep = true
+			}
+		}
+		touched := ""
+		for _, b := range nm.Blocks {
+			for _, ins := range b.Instrs {
+				switch x := ins.(type) {
+				case *ssa.Store:
+					if ia, isIA := x.Addr.(*ssa.IndexAddr); isIA && len(nm.Params) == 2 && ia.X == ssa.Value(nm.Params[1]) {
+						touched = w.InstrPos(x)
+					}
+				case *ssa.Call:
+					if n, _ := callName(x.Common()); strings.HasPrefix(n, "sort.") || strings.HasPrefix(n, "slices.") {
+						touched = w.InstrPos(x)
+					}
+				}
+			}
+		}
+		c.Check(okKeep && touched == "", "R13.4", "NewErrMultipleMatch:carries-all-ids", w.FnPos(nm), "the error lists exactly the ids it was given", "NewErrMultipleMatch does not store the ids it is given as they are (it filters, reorders or rebuilds the list): the multiple-match error no longer lists exactly the matching ids")
+	} else {
+		c.Undecided("R13.4", "anchor:entity.NewErrMultipleMatch", "entity", "not found")
+	}
+	// prefix resolution has one way in: the excerpt scan. Every result of ResolvePrefix /
+	// ResolveExcerptPrefix (and of the matcher variants) comes out of resolveMatcher
+	for _, m := range []string{"ResolvePrefix", "ResolveExcerptPrefix", "ResolveMatcher", "ResolveExcerptMatcher"} {
+		fn := w.Method("cache", "SubCache", m)
+		if fn == nil {
+			c.Undecided("R13.4", "anchor:SubCache."+m, "cache", "not found")
+			continue
+		}
+		fn = bodyOf(fn)
+		c.seeFn(funcName(fn))
+		okOnly, why := true, ""
+		viaScan := func(v ssa.Value) bool {
+			for _, o := range origins(v) {
+				if o.Kind != "call" {
+					continue
+				}
+				if strings.HasSuffix(o.Name, "SubCache.ResolveMatcher") || strings.HasSuffix(o.Name, "SubCache.ResolveExcerptMatcher") {
+					return true
+				}
+				// Resolve(id) / ResolveExcerpt(id) with id out of resolveMatcher
+				if cv, isCall := o.Val.(*ssa.Call); isCall && (strings.HasSuffix(o.Name, "SubCache.Resolve") || strings.HasSuffix(o.Name, "SubCache.ResolveExcerpt")) {
+					args := (&Call{Instr: cv}).Args()
+					if len(args) == 1 && hasOriginCallAny(args[0], "SubCache.resolveMatcher") && dominatedBySuccessOfNamed(fn, "SubCache.resolveMatcher", cv) {
+						return true
+					}
+				}
+			}
+			return false
+		}
+		for _, r := range Returns(fn) {
+			c.Sites++
+			if returnKind(r) == RetError {
+				continue
+			}
+			if !viaScan(ReturnResult(r, 0)) {
+				okOnly, why = false, "the result returned at "+w.InstrPos(r)+" does not come out of the excerpt scan (resolveMatcher): a shortcut (for instance through the entities already in memory) answers an ambiguous prefix with whichever match it meets first"
+			}
+		}
+		c.Check(okOnly, "R13.4", "SubCache."+m+":only-through-the-scan", w.FnPos(fn), "every success result comes out of resolveMatcher", why)
 	}
 	// R13.5
 	sel := w.Func("commands/select", "Resolve")
@@ -839,4 +930,14 @@ func appendCallsOf(v ssa.Value) []*ssa.Call {
 	}
 	walk(v)
 	return out
+}
+
+// dominatedBySuccessOfNamed: at is dominated by the success edge of a call (in fn) whose name ends with suffix.
+func dominatedBySuccessOfNamed(fn *ssa.Function, suffix string, at ssa.Instruction) bool {
+	for _, cl := range Calls(fn) {
+		if strings.HasSuffix(cl.Name, suffix) && cl.Value() != nil && dominatedBySuccess(cl.Value(), at) {
+			return true
+		}
+	}
+	return false
 }
